@@ -243,6 +243,9 @@ package evaluator
 //@   modifies contents(env.store)
 
 //@ func (e *Evaluator) evalString
+//@   goal escapes-with-quotes-restored: istype(result, *object.Str) && as(result, *object.Str).Value ==
+//@        lib("strings.ReplaceAll", lib("strings.ReplaceAll", lib("html.EscapeString", node.Value), "&#34;", "\""), "&#39;", "'")
+//@   goal fresh-result: fresh(result)
 //@   requires node != nil
 //@   ensures result != nil
 //@   modifies nothing
@@ -281,6 +284,12 @@ package evaluator
 //@   modifies contents(env.store)
 
 //@ func (e *Evaluator) evalCallExp
+//@   call dyncall#1: assert custom-only-without-builtin: !has(typeFuncs, node.Function.Value)
+//@   call dyncall#3: assert int-receiver-faithful: arg0 == as(receiverObj, *object.Int).Value && !has(typeFuncs, node.Function.Value)
+//@   call dyncall#5: assert float-receiver-faithful: same(arg0, as(receiverObj, *object.Float).Value)
+//@   call dyncall#4: assert bool-receiver-faithful: arg0 == as(receiverObj, *object.Bool).Value
+//@   call dyncall#0: assert builtin-gets-receiver-and-arguments: arg1 == receiverObj && arg2 == args
+//@   goal unknown-function-is-error: !isErr(receiverObj) && (!has(functions, objType(receiverObj))) ==> isErr(result)
 //@   requires node != nil && WFNode(iface(node)) && env != nil
 //@   use wfCallExp(node)
 //@   ensures result != nil
@@ -385,6 +394,7 @@ package evaluator
 
 // ---- built-in functions (the dispatch table evaluator.functions registers each under its receiver type) ----
 //@ func strLenFunc
+//@   goal counts-characters: result1 == nil && isInt(result0, lib("utf8.RuneCountInString", as(receiver, *object.Str).Value))
 //@   requires receiver != nil && istype(receiver, *object.Str)
 //@   ensures result1 == nil ==> result0 != nil
 //@   modifies nothing
@@ -393,6 +403,7 @@ package evaluator
 //@   ensures result1 == nil ==> result0 != nil
 //@   modifies nothing
 //@ func strRawFunc
+//@   goal raw-is-exact-unescape: result1 == nil && istype(result0, *object.Str) && as(result0, *object.Str).Value == lib("html.UnescapeString", as(receiver, *object.Str).Value)
 //@   requires receiver != nil && istype(receiver, *object.Str)
 //@   ensures result1 == nil ==> result0 != nil
 //@   modifies nothing
@@ -454,6 +465,7 @@ package evaluator
 //@   ensures result1 == nil ==> result0 != nil
 //@   modifies nothing
 //@ func arrayLenFunc
+//@   goal len: isInt(result0, len(as(receiver, *object.Array).Elements)) && result1 == nil
 //@   requires receiver != nil && istype(receiver, *object.Array)
 //@   ensures result1 == nil ==> result0 != nil
 //@   modifies nothing
@@ -466,11 +478,15 @@ package evaluator
 //@   ensures result1 == nil ==> result0 != nil
 //@   modifies nothing
 //@ func arrayReverseFunc
+//@   goal reversed: len(as(receiver, *object.Array).Elements) > 0 ==> istype(result0, *object.Array) && len(as(result0, *object.Array).Elements) == len(as(receiver, *object.Array).Elements)
+//@        && forall(k, 0, len(as(receiver, *object.Array).Elements), as(result0, *object.Array).Elements[k] == as(receiver, *object.Array).Elements[len(as(receiver, *object.Array).Elements)-1-k])
 //@   requires receiver != nil && istype(receiver, *object.Array)
 //@   ensures result1 == nil ==> result0 != nil
 //@   modifies nothing
-//@   loop 0: invariant fresh(reversed) && len(reversed) == length && length == len(elems) && forall(j, 0, rangeindex+1, reversed[length-j-1] != nil)
+//@   loop 0: invariant fresh(reversed) && len(reversed) == length && length == len(elems) && forall(j, 0, rangeindex+1, reversed[length-j-1] != nil && reversed[length-j-1] == elems[j])
+//@   loop 0: invariant elems == as(receiver, *object.Array).Elements
 //@ func arraySliceFunc
+//@   goal never-an-invalid-slice: result1 == nil ==> istype(result0, *object.Array) && len(as(result0, *object.Array).Elements) <= len(as(receiver, *object.Array).Elements)
 //@   requires receiver != nil && istype(receiver, *object.Array)
 //@   ensures result1 == nil ==> result0 != nil
 //@   modifies nothing
@@ -484,10 +500,14 @@ package evaluator
 //@   ensures result1 == nil ==> result0 != nil
 //@   modifies nothing
 //@ func arrayAppendFunc
+//@   goal extends: result1 == nil ==> istype(result0, *object.Array) && len(as(result0, *object.Array).Elements) == len(as(receiver, *object.Array).Elements) + len(args)
+//@        && forall(k, 0, len(as(receiver, *object.Array).Elements), as(result0, *object.Array).Elements[k] == as(receiver, *object.Array).Elements[k])
+//@        && fresh(as(result0, *object.Array).Elements)
 //@   requires receiver != nil && istype(receiver, *object.Array)
 //@   ensures result1 == nil ==> result0 != nil
 //@   modifies nothing
 //@   loop 0: invariant fresh(newElems) && len(newElems) == len(elems)+len(args) && forall(k, 0, len(elems)+rangeindex+1, newElems[k] != nil)
+//@   loop 0: invariant elems == as(receiver, *object.Array).Elements && forall(k, 0, len(elems), newElems[k] == elems[k])
 //@ func arrayPrependFunc
 //@   requires receiver != nil && istype(receiver, *object.Array)
 //@   ensures result1 == nil ==> result0 != nil
@@ -522,6 +542,8 @@ package evaluator
 //@   ensures result1 == nil ==> result0 != nil
 //@   modifies nothing
 //@ func intAbsFunc
+//@   ints wrap64
+//@   goal abs: result1 == nil && isInt(result0, ite(intOf(receiver) < 0, wrap64(-intOf(receiver)), intOf(receiver)))
 //@   requires receiver != nil && istype(receiver, *object.Int)
 //@   ensures result1 == nil ==> result0 != nil
 //@   modifies nothing
@@ -538,10 +560,13 @@ package evaluator
 //@   ensures result1 == nil ==> result0 != nil
 //@   modifies nothing
 //@ func boolBinaryFunc
+//@   goal binary: result1 == nil && isInt(result0, ite(as(receiver, *object.Bool).Value, 1, 0))
 //@   requires receiver != nil && istype(receiver, *object.Bool)
 //@   ensures result1 == nil ==> result0 != nil
 //@   modifies nothing
 //@ func boolThenFunc
+//@   goal selects-by-truth: len(args) >= 1 ==> result1 == nil && ite(as(receiver, *object.Bool).Value, result0 == args[0], ite(len(args) == 1, istype(result0, *object.Nil), result0 == args[1]))
+//@   goal needs-an-argument: len(args) == 0 ==> result1 != nil
 //@   requires receiver != nil && istype(receiver, *object.Bool)
 //@   ensures result1 == nil ==> result0 != nil
 //@   modifies nothing
